@@ -17,13 +17,13 @@ RULE = ('random operation sequences of length <= 8 over {copy, neg, +, -, [] (in
         'sequence has >= 2 steps or the tensor >= 2 entries')
 MIN_NONTRIVIAL = {'quick': 800, 'thorough': 20000}
 REQUIRED_COUNTERS = ['oracle:step', 'oracle:getitem', 'oracle:compress', 'oracle:hosvd', 'oracle:aca', 'oracle:greedy_history',
-                     'oracle:generator', 'oracle:operator']
+                     'oracle:generator', 'oracle:operator', 'oracle:modek']
 VARIANTS = {'quick': ['plain'], 'thorough': ['plain', 'asan']}
 WORKERS_SAN = 8
 ASSUMPTIONS = ['dense numpy arrays are the executable model', 'numpy.random is seeded per case because aca/als draw random restarts',
                'index expressions use at most one index list (numpy and outer-product semantics coincide there)']
 
-KINDS = ['seq', 'seq', 'seq', 'seq', 'operator', 'compress', 'hosvd', 'aca', 'greedy', 'generator']
+KINDS = ['seq', 'seq', 'seq', 'seq', 'operator', 'compress', 'hosvd', 'aca', 'greedy', 'generator', 'modek']
 
 def cases(tier, seed):
     variant = os.environ.get('VERIF_VARIANT', 'plain')
@@ -130,7 +130,31 @@ def run_case(rec, case):
     rng = rng_for('C18', case['seed'], case['idx'])
     np.random.seed(int(rng.integers(0, 2 ** 31)))
     {'seq': _seq, 'operator': _operator, 'compress': _compress, 'hosvd': _hosvd, 'aca': _aca, 'greedy': _greedy,
-     'generator': _generator}[case['kind']](rec, case, rng)
+     'generator': _generator, 'modek': _modek}[case['kind']](rec, case, rng)
+
+def _modek(rec, case, rng):
+    """Mode-k products and apply_tprod of full tensors with dense / sparse / LinearOperator factors against the definition
+    Y[.., j, ..] = sum_l B[j, l] X[.., l, ..]."""
+    import scipy.sparse, scipy.sparse.linalg
+    from pyiga import tensor
+    from verif.api import guarded
+    d = int(rng.integers(1, 5))
+    shp = tuple(int(rng.integers(1, 5)) for _ in range(d))
+    X = rng.standard_normal(shp)
+    k = int(rng.integers(0, d)); m = int(rng.integers(1, 6))
+    B = rng.standard_normal((m, shp[k]))
+    kind = str(rng.choice(['ndarray', 'csr', 'linop']))
+    Bop = B if kind == 'ndarray' else (scipy.sparse.csr_matrix(B) if kind == 'csr' else scipy.sparse.linalg.aslinearoperator(B))
+    c = dict(case, shape=list(shp), k=k, m=m, operator=kind)
+    rec.case(c, nontrivial=X.size > 1 and d >= 2)
+    sig = {'route': 'modek_tprod', 'operator': kind, 'order_ge_3': d >= 3}
+    ok, Y = guarded(rec, c, sig, tensor.modek_tprod, Bop, k, X)
+    if not ok: return
+    ref = np.moveaxis(np.tensordot(B, X, axes=([1], [k])), 0, k)
+    rec.count('oracle:modek')
+    if np.shape(Y) != ref.shape:
+        rec.violation(dict(sig, oracle='shape of the mode-k product'), c, {'got': list(np.shape(Y)), 'want': list(ref.shape)}); return
+    rec.check_close('modek', float(np.abs(np.asarray(Y) - ref).max()), 1e-12 * (np.abs(ref).max() + 1), sig, c)
 
 def _seq(rec, case, rng):
     from pyiga import tensor
